@@ -16,24 +16,34 @@ PROPERTIES = {
             "(Circular, Sector, Rectangular, Mesh) encloses its region; GridRegion.gridToPoint/pointToGrid (affine map, nearest index, round trip); "
             "polygon sampling: triangulatePolygon (+ triangulatePolygon_mapbox) returns exactly the trusted earcut triangulation of the polygon handed over ring by ring "
             "(so the triangles lie inside it and tile it), PolygonalRegion._samplingData lists all triangles of all polygons with their bounds and the prefix sums of their areas, "
-            "PolygonalRegion.uniformPointInner draws the triangle with random.choices over those weights and returns an accepted candidate inside the chosen triangle at height z"
+            "PolygonalRegion.uniformPointInner draws the triangle with random.choices over those weights and returns an accepted candidate inside the chosen triangle at height z; "
+            "polylines: PolylineRegion.__init__ / segmentsOf (one segment per consecutive pair of vertices of every chain, none between chains, cumulativeLengths = prefix sums of the Euclidean segment lengths), "
+            "PolylineRegion.uniformPointInner and PathRegion.uniformPointInner (one random.choices over the segments / edges with weights proportional to their lengths, one uniform parameter t in [0, 1], "
+            "result = A + t (B - A) on the drawn segment in all three coordinates, z = 0 for a PolylineRegion); "
+            "GridRegion.__init__ (the point table is exactly the grid points of the free cells, one per free cell), GridRegion.containsPoint (true exactly when the nearest grid point is a free cell, "
+            "ties excepted; every point that can be drawn is a member)"
         ),
         note="trigonometry by axioms A2 (Pythagoras, quarter-turn shift); polygons of the planar primitives are stubs (membership is judged on the exact disc / sector / rectangle)",
         assumptions=[
             "A3: laws of the library RNG primitives (random, uniform, triangular, randrange, choices, choice)",
             "an operand's own sampler returns one of its members (this property for the operands: assume-guarantee)",
             "KD-tree query_ball_point returns exactly the points within the radius",
+            "numpy.where(mask) lists exactly the true entries once, in row-major order (N-where); PointSetRegion.__init__ stores the points in the order given (stub)",
         ],
         not_reached=[
             "uniformity of the continuous samplers (change of variables for triangular radius x uniform angle, triangle rejection in PolygonalRegion.uniformPointInner): statistical, not deductive",
             "termination of the rejection loop of PolygonalRegion.uniformPointInner (almost sure only; an arbitrary iteration is verified)",
-            "MeshVolumeRegion/MeshSurfaceRegion/VoxelRegion/PathRegion/PolylineRegion.uniformPointInner (trimesh.sample / numpy internals)",
-            "GridRegion.containsPoint over the numpy grid (only the index maps are verified)",
+            "MeshVolumeRegion/MeshSurfaceRegion/VoxelRegion.uniformPointInner (trimesh.sample / numpy internals)",
+            "PathRegion.__init__ (vertex de-duplication through a dict keyed by Vectors, numpy edge arrays): the invariant edge_lengths[i] = |end points of edge i| > 0 is assumed by the sampler's contract",
+            "the heading attached to a point drawn on a PolylineRegion (headingOfSegment is a stub: orientation is not part of the property)",
+            "GridRegion.containsObject; GridRegion with symbolic grid size (the point table and membership are verified for 1x1, 2x2, 2x3 grids; the index maps for every size)",
         ],
         bounded=[
             "point-set x region sampler: 2 points",
             "generic samplers: 2 (intersection) / 2-3 (union) operands",
             "triangulatePolygon: rings of 3..5 vertices, 0..1 hole; _samplingData: 1..2 polygons; uniformPointInner: 1..3 triangles",
+            "PolylineRegion.__init__: one chain of 2..4 vertices (points or LineString); segmentsOf: MultiLineString of two chains (2+2 / 2+3 / 3+2 vertices); PolylineRegion.uniformPointInner: 1..3 segments; PathRegion.uniformPointInner: 1..3 edges over 2..4 vertices",
+            "GridRegion.__init__ / containsPoint: grids of 1x1, 2x2, 2x3 cells (symbolic entries, spacings, offsets)",
             "stand-in polygon_catalogue (never counted as proved): real triangulation + sampling on triangles, convex/concave quadrilaterals in every rotation and winding, larger polygons, polygons with holes; exact shapely checks",
         ],
     )
